@@ -268,16 +268,73 @@ def rule_z6(ctx, facts):
             return f is not TOP and f.c == extra and len(f.symbols()) == 1 and all(
                 s[0] == "call" and callee_str(b.call_at(s[1])).endswith("resize_stamp") and v == Fraction(2) ** SHIFT for s, v in f.terms.items())
         for cas, sc in helper_cas(b, ev):
-            atoms = {"sign": False, "max_resizers": False, "plus_one": False, "transfer_index": False}
+            atoms = {"sign": False, "max_resizers": False, "plus_one": False, "transfer_index": False, "generation": False}
+
+            def stamp_part(op):
+                """'sc' / 'rs' when the operand is the stamp part (bits above RESIZE_STAMP_SHIFT) of sc resp. of this table's stamp:
+                x >> SHIFT, (x >> SHIFT) << SHIFT, or x & <mask of the high bits>; rs itself counts as its own stamp part"""
+                l = op_local(op)
+                if l is None:
+                    return None
+                f = ev.local(l)
+                if f is not TOP and is_rs(f, 0):
+                    return "rs"
+                seen_l = set()
+                shr = False
+                while l is not None and l not in seen_l:
+                    seen_l.add(l)
+                    f = ev.local(l)
+                    if f is not TOP and is_rs(f, 0):
+                        return "rs"
+                    ds = [d for d in b.defs.get(l, []) if d[1] == "assign"]
+                    if len(ds) != 1:
+                        break
+                    rv = ds[0][2]["rv"]
+                    if "use" in rv:
+                        l = op_local(rv["use"])
+                        continue
+                    op2 = rv.get("bin", "")
+                    if op2 in ("Shr", "ShrUnchecked") and rv["b"].get("int") == SHIFT:
+                        shr = True
+                        l = op_local(rv["a"])
+                        continue
+                    if op2 in ("Shl", "ShlUnchecked") and rv["b"].get("int") == SHIFT:
+                        l = op_local(rv["a"])
+                        continue
+                    if op2 == "BitAnd":
+                        fa, fb = ev.operand(rv["a"]), ev.operand(rv["b"])
+                        masks = [(fa, rv["b"]), (fb, rv["a"])]
+                        nxt = None
+                        for m, other in masks:
+                            if m is not TOP and m.is_const() and m.c.denominator == 1 and int(m.c) != 0 and int(m.c) & ((1 << SHIFT) - 1) == 0:
+                                nxt = op_local(other)
+                        if nxt is None:
+                            break
+                        shr = True
+                        l = nxt
+                        continue
+                    break
+                if not shr or l is None:
+                    return None
+                f = ev.local(l)
+                if f is not TOP and f == sc:
+                    return "sc"
+                if f is not TOP and is_rs(f, 0):
+                    return "rs"
+                return None
             for blk in range(len(b.blocks)):
                 cd = cond_of(b, blk)
                 if not cd or cd["kind"] != "cmp":
                     continue
                 a, bb = ev.operand(cd["a"]), ev.operand(cd["b"])
-                if a is TOP or bb is TOP:
-                    continue
                 T, F = (blk, cd["true"]), (blk, cd["false"])
                 op = cd["op"]
+                if op in ("Ne", "Eq") and {stamp_part(cd["a"]), stamp_part(cd["b"])} == {"sc", "rs"}:
+                    same_edge = F if op == "Ne" else T
+                    if dominated_by_edge(b, cas.point, [same_edge]):
+                        atoms["generation"] = True
+                if a is TOP or bb is TOP:
+                    continue
                 if a == sc and bb.is_const() and bb.c == 0:
                     if op == "Ge" and dominated_by_edge(b, cas.point, [F]):
                         atoms["sign"] = True
@@ -296,8 +353,8 @@ def rule_z6(ctx, facts):
             found[b.id + "@" + cas.span] = atoms
             miss = [k for k, v in atoms.items() if not v]
             ctx.inst("Z6", b, "refusals before joining", cas.span, not miss,
-                     "sign of sc, sc == rs + MAX_RESIZERS, sc == rs + 1, transfer_index <= 0 (rs = resize_stamp(len) << SHIFT) all dominate the joining CAS "
-                     "on their refusing edge" if not miss else
+                     "sign of sc, stamp(sc) == stamp of this table, sc == rs + MAX_RESIZERS, sc == rs + 1, transfer_index <= 0 (rs = resize_stamp(len) << SHIFT) "
+                     "all dominate the joining CAS on their refusing edge" if not miss else
                      "the joining CAS sc -> sc+1 is not guarded by: %s (with rs = resize_stamp(len) << RESIZE_STAMP_SHIFT): a thread can join a resize that "
                      "is full or already being committed" % ", ".join(miss))
     vals = list(found.values())
